@@ -62,7 +62,50 @@ SPECIAL_PLAIN = ["flag_Set", "flag_Clear", "flag_CalcValue", "flag_SetDungeonMod
 JUMP_NAMES = list(JUMP_IDX)
 
 
-def random_ssb(r: random.Random, hostile=0.3, max_routines=4, max_ops=10, well_formed=False, special_p=0.15):
+IL = "intlike"
+INT = "int"
+STR = "string"
+# parameter kinds of the operations with special ExplorerScript syntax (what a binary reader delivers for them)
+SPECIAL_SIG = {
+    "flag_CalcBit": [IL, INT, IL], "flag_CalcValue": [IL, ("op", 1, 4), IL], "flag_CalcVariable": [IL, ("op", 0, 4), IL], "flag_Clear": [IL],
+    "flag_Initial": [IL], "flag_ResetScenario": [IL], "flag_ResetDungeonResult": [], "flag_Set": [IL, IL], "flag_SetAdventureLog": [IL],
+    "flag_SetDungeonMode": [IL, IL], "flag_SetPerformance": [INT, IL], "flag_SetScenario": [IL, INT, INT],
+    "Branch": [IL, IL], "BranchBit": [IL, INT], "BranchDebug": [("op", 0, 1)], "BranchEdit": [("op", 0, 1)], "BranchVariation": [("op", 0, 1)],
+    "BranchPerformance": [INT, ("op", 0, 1)], "BranchScenarioNow": [IL, INT, INT], "BranchScenarioNowAfter": [IL, INT, INT],
+    "BranchScenarioNowBefore": [IL, INT, INT], "BranchScenarioAfter": [IL, INT, INT], "BranchScenarioBefore": [IL, INT, INT],
+    "BranchValue": [IL, ("op", 0, 10), IL], "BranchVariable": [IL, ("op", 0, 10), IL], "BranchExecuteSub": [IL], "BranchSum": [IL, ("op", 0, 10), IL],
+    "Switch": [IL], "SwitchScenario": [IL], "SwitchScenarioLevel": [IL], "SwitchRandom": [IL], "SwitchDungeonMode": [IL], "SwitchSector": [],
+    "Case": [IL], "CaseMenu": [STR], "CaseMenu2": [IL], "CaseValue": [("op", 0, 10), IL], "CaseVariable": [("op", 0, 10), IL],
+    "CaseScenario": [("op", 0, 10), IL],
+    "message_SwitchTalk": [IL], "message_SwitchMonologue": [IL], "CaseText": [IL, STR], "DefaultText": [STR],
+    "lives": [IL], "object": [IL], "performer": [IL], "Return": [], "End": [], "Hold": [], "JumpCommon": [IL], "Jump": [], "Call": [],
+}
+ES_KEYWORDS = {"if", "switch", "end", "jump", "not", "case", "with", "macro", "import", "for", "while", "forever", "default", "else",
+               "elseif", "return", "hold", "continue", "break", "break_loop", "call", "value", "debug", "edit", "variation", "random",
+               "sector", "dungeon_mode", "menu", "menu2", "clear", "reset", "init", "scn", "dungeon_result", "adventure_log",
+               "message_SwitchTalk", "message_SwitchMonologue", "coro", "def", "alias", "previous", "Position", "TRUE", "FALSE"}
+
+
+def typed_param(r, kind, hostile):
+    if kind == IL:
+        return r.choice([("int", r.choice([0, 1, 2, 3, 7, 19, -1, 255, 32767])), ("const", r.choice(["$VAR", "CONST_A", "$SCENARIO_MAIN", "_x", "a1"])),
+                         ("fp", r.choice(["1.5", "-0.25", "63.996"]))])
+    if kind == INT:
+        return ("int", r.choice([0, 1, 2, 7, 30, 255, -1]))
+    if kind == STR:
+        if r.random() < 0.5:
+            return ("str", gval_string(r, hostile))
+        langs = r.sample(["english", "french", "german"], r.randint(1, 3))
+        return ("lang", tuple((l, gval_string(r, hostile)) for l in langs))
+    if isinstance(kind, tuple):
+        return ("int", r.randint(kind[1], kind[2]))
+    raise ValueError(kind)
+
+
+def random_ssb(r: random.Random, hostile=0.3, max_routines=4, max_ops=10, well_formed=False, special_p=0.15, typed=False,
+               keyword_names=True):
+    """typed: operations with special syntax get parameters of the kinds their syntax has (a binary reader knows the
+    parameter types of each opcode); keyword_names: plain opcode names may be ExplorerScript keywords"""
     """Arbitrary SSB routine set with in-range jump targets. Returns spec for norm.make_ops."""
     n = r.randint(1, max_routines)
     coro = r.random() < 0.15
@@ -97,12 +140,15 @@ def random_ssb(r: random.Random, hostile=0.3, max_routines=4, max_ops=10, well_f
             if c < 0.3:
                 name = r.choice(JUMP_NAMES)
                 ji = JUMP_IDX[name]
-                ps = [gval_param(r, hostile, allow_pos=False) if k else ("const", "$V") for k in range(ji)]
-                if name in ("BranchValue", "BranchVariable", "CaseValue", "CaseVariable", "CaseScenario", "BranchSum"):
-                    # operator parameter
-                    oi = 1 if name.startswith("Branch") else 0
-                    if oi < len(ps):
-                        ps[oi] = ("int", r.randint(0, 10))
+                if typed:
+                    ps = [typed_param(r, k, hostile) for k in SPECIAL_SIG[name]]
+                else:
+                    ps = [gval_param(r, hostile, allow_pos=False) if k else ("const", "$V") for k in range(ji)]
+                    if name in ("BranchValue", "BranchVariable", "CaseValue", "CaseVariable", "CaseScenario", "BranchSum"):
+                        # operator parameter
+                        oi = 1 if name.startswith("Branch") else 0
+                        if oi < len(ps):
+                            ps[oi] = ("int", r.randint(0, 10))
                 ps.append(("int", r.choice(all_offsets)))
                 ops.append((o, name, ps))
             elif c < 0.3 + special_p:
@@ -111,10 +157,13 @@ def random_ssb(r: random.Random, hostile=0.3, max_routines=4, max_ops=10, well_f
                     name = "Wait"
                 if name in ("Return", "End", "Hold", "JumpCommon"):
                     ops.append((o, name, [] if name != "JumpCommon" else [("int", 3)]))
+                elif typed and name in SPECIAL_SIG:
+                    ops.append((o, name, [typed_param(r, k, hostile) for k in SPECIAL_SIG[name]]))
                 else:
                     ops.append((o, name, [gval_param(r, hostile) for _ in range(r.randint(0, 3))]))
             else:
-                ops.append((o, r.choice(PLAIN_NAMES), [gval_param(r, hostile) for _ in range(r.randint(0, 4))]))
+                names = PLAIN_NAMES if keyword_names else [n for n in PLAIN_NAMES if n not in ES_KEYWORDS]
+                ops.append((o, r.choice(names), [gval_param(r, hostile) for _ in range(r.randint(0, 4))]))
         if coro:
             routines.append({"kind": "COROUTINE", "target": None, "name": f"CORO_{ri}", "ops": ops})
         else:
